@@ -36,6 +36,7 @@ FLT = T("Flt")  # float (uninterpreted)
 DT = T("DT")  # datetime.datetime (uninterpreted)
 BYTES = T("bytes")
 CLS = T("cls")  # a class object of the package (its id in the class table)
+HANDLE = T("handle")  # an open file / stream object, modelled by an integer descriptor
 JREP = T("jrep")  # value-level PROV-JSON representation: a plain JSON scalar or an object {"$", "type"?, "lang"?}
 PYOBJ = T("pyobj")  # python-level constant (function, class, module, ...)
 EXC = T("exc")
@@ -131,7 +132,7 @@ class Sorts:
             return "DT"
         if k == "bytes":
             return "Bytes"
-        if k in ("ref", "cls"):
+        if k in ("ref", "cls", "handle"):
             return "Int"
         if k == "opt":
             inner = self.sort(t.args[0])
